@@ -1,7 +1,7 @@
 (* C03 -- the validators accept exactly the wire forms of valid names. *)
 From Coq Require Import NArith List Bool Arith Lia ZArith.
 From Coq Require Import ZifyN ZifyBool ZifyNat.
-From DV Require Import Base.Outcome Base.Bytes Base.Names C03.Gen C03.Model C03.ModelWire C03.ProofsBuilder.
+From DV Require Import Base.Outcome Base.Bytes Base.Names C03.Gen C03.Model C03.ModelWire C03.Spec C03.ProofsBuilder.
 Import ListNotations.
 Ltac Zify.zify_post_hook ::= Z.div_mod_to_equations.
 
@@ -255,16 +255,17 @@ Theorem message_zonefile_limits : forall s c : nat,
   (exceeds name_parse_ge s name_parse_lim = false <-> (s <= name_max)%nat) /\
   (exceeds zf_label_fast_ge (1 + c) (1 + zf_label_latest_add) = false <-> (c <= label_max)%nat) /\
   (exceeds zf_label_slow_ge (1 + c) (1 + zf_label_latest_add) = false <-> (c <= label_max)%nat) /\
-  (exceeds zf_name_ge s zf_name_lim = false <-> (s <= check_rel_lim)%nat).
+  (exceeds zf_name_ge s zf_name_lim = false <-> (s <= check_rel_lim)%nat) /\
+  ((s =? c + zf_empty_label_add)%nat = true <-> s = S c).
 Proof.
-  intros s c.
+  intros s c. rewrite Nat.eqb_eq.
   unfold parse_ref_phase1_ge, parse_ref_phase1_lim, parse_ref_phase2_ge, parse_ref_phase2_lim,
     name_parse_ge, name_parse_lim, zf_label_fast_ge, zf_label_slow_ge, zf_label_latest_add,
-    zf_name_ge, zf_name_lim, name_max, label_max, check_rel_lim.
+    zf_name_ge, zf_name_lim, name_max, label_max, check_rel_lim, zf_empty_label_add.
   rewrite ?exceeds_ge, ?exceeds_gt.
   repeat split; intros H;
     try (apply Nat.leb_gt in H; lia); try (apply Nat.ltb_ge in H; lia);
-    try (apply Nat.leb_gt; lia); try (apply Nat.ltb_ge; lia).
+    try (apply Nat.leb_gt; lia); try (apply Nat.ltb_ge; lia); try lia.
 Qed.
 
 (* ---- UncertainName::from_octets *)
@@ -365,4 +366,62 @@ Proof.
     split.
     + unfold wire_abs. rewrite wire_rel_app, app_assoc. reflexivity.
     + apply chain_uncertain_valid; auto. replace (wire_len r + 1)%nat with (S (wire_len r)) by lia. exact E.
+Qed.
+
+(* ---- a chain of three parts ending in an absolute name is valid -- also when
+   the inner relative chain is the known 255-octet class: the outer test then
+   refuses it *)
+Theorem chain3_abs_valid a b c : valid_rel a -> valid_rel b -> valid_abs c ->
+  chain3 (wire_len a) (wire_len b) (wire_len c + 1) = Ok tt -> valid_abs (a ++ b ++ c).
+Proof.
+  unfold chain3, chain_new, chain_ge, chain_lim, name_max. rewrite !exceeds_gt.
+  intros [Ha _] [Hb _] [Hc _].
+  destruct (Nat.ltb_spec 255 (wire_len a + wire_len b)); [discriminate|]. cbn [bind].
+  destruct (Nat.ltb_spec 255 (wire_len a + wire_len b + (wire_len c + 1))); [discriminate|]. intros _.
+  split; [repeat (apply Forall_app; split); assumption|]. rewrite !wire_len_app. lia.
+Qed.
+
+(* ---- the constant names *)
+Theorem constants_valid :
+  check_abs const_root = Ok tt /\ const_root = wire_abs [] /\ const_root_slice = const_root /\
+  const_from_symbols_root = const_root /\
+  check_rel const_empty = Ok tt /\ const_empty = wire_rel [] /\ const_empty_slice = const_empty /\
+  check_rel const_wildcard = Ok tt /\ const_wildcard = wire_rel [[42%N]] /\ const_wildcard_slice = const_wildcard.
+Proof. vm_compute. repeat split; reflexivity. Qed.
+
+(* ---- NameBuilder::from_builder starts from a state satisfying the builder invariant *)
+Theorem from_builder_inv w st : wf_bytes w -> b_from_builder w = Ok st -> C03.Spec.Inv st.
+Proof.
+  intros Hw H. unfold b_from_builder in H. destruct (check_rel w) as [[]|e|p|] eqn:E; try discriminate.
+  cbn [bind] in H. injection H as <-.
+  apply (check_rel_iff w Hw) in E. destruct E as (n & [Hn Hl] & ->).
+  exists (C03.Spec.mk_a n None). split; [reflexivity|]. split; [split; [exact Hn|exact I]|].
+  unfold C03.Spec.alen. cbn. lia.
+Qed.
+
+(* ---- Name::parse *)
+Lemma nparse_loop_sound f : forall tmp c len, wf_bytes tmp -> nparse_loop f tmp c = Ok len ->
+  exists n rest, Forall valid_label n /\ tmp = wire_abs n ++ rest /\ len = (c + length (wire_abs n))%nat.
+Proof.
+  induction f as [|f IH]; intros tmp c len Hw H; [discriminate|]. cbn [nparse_loop] in H.
+  destruct (is_empty tmp); [discriminate|].
+  destruct (split_from tmp) as [[l tail]|e|p|] eqn:E; try discriminate.
+  destruct (split_from_ok tmp l tail Hw E) as (-> & Hl & Hwl & Hwt).
+  destruct (is_root l) eqn:R.
+  - destruct l; [|discriminate]. injection H as <-. exists [], tail. split; [constructor|]. split; [reflexivity|]. cbn. lia.
+  - apply is_root_false in R. destruct (IH tail _ len Hwt H) as (n & rest & Hn & -> & ->).
+    exists (l :: n), rest. split; [constructor; [split; [lia|exact Hwl]|exact Hn]|]. split.
+    + unfold wire_abs, wire_rel. cbn [map concat]. rewrite <- !app_assoc. reflexivity.
+    + rewrite !wire_abs_length. cbn [wire_len]. lia.
+Qed.
+
+Theorem name_parse_valid b w : wf_bytes b -> name_parse b = Ok w ->
+  exists n rest, valid_abs n /\ w = wire_abs n /\ b = w ++ rest.
+Proof.
+  intros Hw H. unfold name_parse in H.
+  destruct (nparse_loop (S (length b)) b 0) as [len|e|p|] eqn:E; try discriminate. cbn [bind] in H.
+  unfold name_parse_ge, name_parse_lim, name_max in H. rewrite exceeds_gt in H.
+  destruct (Nat.ltb_spec 255 len); [discriminate|]. injection H as <-.
+  destruct (nparse_loop_sound _ _ _ _ Hw E) as (n & rest & Hn & -> & ->). cbn [Nat.add] in *.
+  exists n, rest. rewrite take_app_length. split; [|auto]. split; [exact Hn|]. rewrite wire_abs_length in *. lia.
 Qed.
